@@ -36,9 +36,11 @@ def write_cfg(path, constants, invariants, properties, spec="MCSpec", view="MCVi
 
 
 ENGINE_INVS = ["InvRTCNoNesting", "InvQuiescent", "InvExactlyOneActive", "InvOneAtATime",
-               "InvViewOK", "InvPendingWF", "ResultOnlyBeforeOn", "ActivatedBeforeFirstEvent"]
+               "InvViewOK", "InvPendingWF", "ResultOnlyBeforeOn", "ActivatedBeforeFirstEvent",
+               "InitOnlyFromNoState"]
 ENGINE_PROPS = ["PropFirstEnabledWins", "PropCurOnlyInAssign", "PropPhaseOrder", "PropQueueFIFO",
-                "PropFailureState", "PropIsolation", "NoCandidateOutcome", "DroppedNeverRun"]
+                "PropFailureState", "PropIsolation", "NoCandidateOutcome", "DroppedNeverRun",
+                "ResumeRunsNothing"]
 
 
 def spec_family(family):
@@ -112,6 +114,11 @@ def hist_to_scenario(member, hist, ni=1):
             steps.append({"op": "call", "i": 1, "api": "send", "ev": h["ev"], "gv": h["gv"]})
         elif e == "activate":
             steps.append({"op": "call", "i": 1, "api": "activate", "gv": h["gv"]})
+        elif e == "restart":
+            steps.append({"op": "new", "i": 1, "cls": 1, "opt": h["opt"], "stored": "", "reuse_model": True,
+                          "provs": list(member["provs"]), "gv": h["gv"]})
+        elif e in ("write_setter", "write_model"):
+            steps.append({"op": "call", "i": 1, "api": e, "v": h["v"]})
         elif e == "B":
             c = h["c"]
             occ[c] = occ.get(c, 0) + 1
